@@ -20,8 +20,11 @@ package nsqd
 //@   onreturn dqMaxMsg := maxMsgSize
 //@ ghostgroup dqCalls, dqName, dqMinMsg, dqMaxMsg
 
-// Spawning the pump / notifying the lookup loop has no synchronous effect on modelled state (assumed).
-//@ benign (*github.com/nsqio/nsq/internal/util.WaitGroupWrapper).Wrap, (*github.com/nsqio/nsq/nsqd.NSQD).Notify
+// Spawning the pump has no synchronous effect on modelled state (assumed). NSQD.Notify: see zz_contracts_kchannel_verif.go.
+// An object whose name ends in #ephemeral is ephemeral: dummy backend, and it is announced with persist == false
+// ("ephemeral channels and topics never reach disk or the persisted metadata", C08).
+// (isEph(name) = the name ends in #ephemeral: /verif/lib/trusted/lookup.spec)
+//@ benign (*github.com/nsqio/nsq/internal/util.WaitGroupWrapper).Wrap
 // Pure helpers.
 //@ benign (github.com/nsqio/nsq/nsqd.Options).HasExperiment, github.com/nsqio/nsq/internal/quantile.New
 
@@ -38,7 +41,11 @@ package nsqd
 //@   ensures[has-backend] result.backend != nil
 //@   ensures[starts-unpaused-running] result.paused == 0 && result.exitFlag == 0
 //@   ensures[disk-queue-accepts-every-message] dqCalls != old(dqCalls) ==> dqCalls == old(dqCalls) + 1 && dqName == topicName && dqMinMsg == 26 && dqMaxMsg == curOpts(nsqd).MaxMsgSize + 26
-//@   modifies dqCalls
+//@   ensures[ephemeral-by-name] result.ephemeral == isEph(topicName)
+//@   ensures[ephemeral-never-on-disk] result.ephemeral ==> dqCalls == old(dqCalls)
+//@   ensures[durable-on-disk] !result.ephemeral ==> dqCalls == old(dqCalls) + 1
+//@   ensures[announced-persist-unless-ephemeral] kNotifies == old(kNotifies) + 1 && kNotifyNSQD == nsqd && kNotifyPersist == !result.ephemeral && dyntype(kNotifyValue) == typetag("*Topic") && unbox(kNotifyValue, "*Topic") == result
+//@   modifies dqCalls, kNotifies
 
 //@ func NewChannel(topicName string, channelName string, nsqd *NSQD, deleteCallback func(*Channel)) *Channel
 //@   props C05 C07 C01 C08
@@ -48,4 +55,8 @@ package nsqd
 //@   ensures[running] result.exitFlag == 0 && result.paused == 0
 //@   ensures[disk-queue-accepts-every-message] dqCalls != old(dqCalls) ==> dqCalls == old(dqCalls) + 1 && dqMinMsg == 26 && dqMaxMsg == curOpts(nsqd).MaxMsgSize + 26
 //@   ensures[queues-distinct] queuesDistinct(result)
-//@   modifies dqCalls, mapstore(map[MessageID]*Message), mapstore(map[MessageID]*pqueue.Item), Message.index, elems(*Message), elems(*pqueue.Item)
+//@   ensures[ephemeral-by-name] result.ephemeral == isEph(channelName)
+//@   ensures[ephemeral-never-on-disk] result.ephemeral ==> dqCalls == old(dqCalls)
+//@   ensures[durable-on-disk] !result.ephemeral ==> dqCalls == old(dqCalls) + 1
+//@   ensures[announced-persist-unless-ephemeral] kNotifies == old(kNotifies) + 1 && kNotifyNSQD == nsqd && kNotifyPersist == !result.ephemeral && dyntype(kNotifyValue) == typetag("*Channel") && unbox(kNotifyValue, "*Channel") == result
+//@   modifies dqCalls, kNotifies, kInitPQs, mapstore(map[MessageID]*Message), mapstore(map[MessageID]*pqueue.Item), Message.index, elems(*Message), elems(*pqueue.Item)
